@@ -71,8 +71,8 @@ def _run_group(args):
     return out
 
 
-def run(prop, tier, seed):
-    rep = Report("C04", tier, seed)
+def format_vectors(rep, tier, wanted=None):
+    """MC_C04's vectors replayed through the format mixins / codecs; clauses outside `wanted` are another property's business"""
     wd = tlc.scratch()
     r = tlc.run_tlc("MC_C04", workdir=wd, workers=16, timeout=3000)
     rep.add_tlc(r, "MC_C04: NothingElseDiffers (format document == basic form modulo declared natives / TOML null omission); one vector per state")
@@ -88,12 +88,18 @@ def run(prop, tier, seed):
             rep.count(out["n"])
             rep.cov["traces_validated_against_impl"] += out["n"]
             for m in out["mism"]:
-                rep.violation(m["clause"], {**m, "channel": "R", "replay_module": "harness.checks.c04"})
+                if wanted is None or m["clause"] in wanted:
+                    rep.violation(m["clause"], {**m, "channel": "R", "replay_module": "harness.checks.c04"})
     for rec in r.printed:
         if rec[0] == "fvec":
             rep.nontrivial(hashlib.sha1(jkey(rec[1:4]).encode()).hexdigest())
     for rec in r.printed[:: max(1, len(r.printed) // 3)][:3]:
         rep.sample({"channel": "R", "vector": rec})
+
+
+def run(prop, tier, seed):
+    rep = Report("C04", tier, seed)
+    format_vectors(rep, tier)
     # histories of format / dict calls with dialects and keyword arguments on one class (sys/Mashumaro.tla)
     from harness.checks import sys_props
     sys_props.run_into(rep, "C04", tier, seed)
